@@ -164,3 +164,14 @@ func RunNative(f func()) (outcome string) {
 func And(a, b bool) bool     { return a && b }
 func Or(a, b bool) bool      { return a || b }
 func Implies(a, b bool) bool { return !a || b }
+
+// Count returns how many of the conditions hold (one solver term, no fork).
+func Count(bs ...bool) int {
+	n := 0
+	for _, b := range bs {
+		if b {
+			n++
+		}
+	}
+	return n
+}
